@@ -317,7 +317,7 @@ def run_direct(desc):
 
     parents = [d for lvl in tree.levels[:-1] for d in lvl]
     for rep in range(8):
-        tie = rng.choice(["distinct", "distinct", "ties", "all_equal", "cut_tie"])
+        tie = rng.choice(["distinct", "distinct", "ties", "all_equal", "cut_tie", "near_ties"])
         cands = {}
         chosen = [p for p in parents if rng.random() < 0.7] or parents[:1]
         pool_fit = [round(rng.uniform(-5, 5), 6) for _ in range(40)]
@@ -326,7 +326,13 @@ def run_direct(desc):
             n = rng.randint(0, 12 if rep % 2 else 4)
             inds = []
             for _ in range(n):
-                if tie == "all_equal":
+                if tie == "near_ties":
+                    # pairwise distinct values that differ only beyond the 10th significant digit
+                    fit = 7.5 * (1.0 + rng.randint(1, 10**6) * 1e-13)
+                    while fit in used:
+                        fit = 7.5 * (1.0 + rng.randint(1, 10**6) * 1e-13)
+                    used.add(fit)
+                elif tie == "all_equal":
                     fit = 1.25
                 elif tie == "ties":
                     fit = rng.choice(pool_fit[:5])
